@@ -308,3 +308,27 @@ func TestC10_KnownD11(t *testing.T) {
 	r.Case("d11", true, map[string]interface{}{"input": "strings.Repeat(\"not \", 1000000)+\"a == 1\"", "unbudgeted_child_crashed": crashed, "budgeted_rejected": true}, fmt.Sprintf("d11-reproduces:%v", crashed))
 	r.Case("d11-budget", true, nil)
 }
+
+// TestC10_Defaults compares the three entry points WITHOUT any budget on valid inputs whose
+// parse needs between 10^5 and a few 10^6 steps: grammar.Parse must accept exactly what
+// CreateEvaluator and CreateFilter accept - a hidden default limit in one of them shows here.
+func TestC10_Defaults(t *testing.T) {
+	r := rec(t, "C10", c10Rule)
+	var ins []string
+	for _, n := range []int{4, 5, 6, 7} {
+		ins = append(ins, strings.Repeat("(", n)+"a == 1"+strings.Repeat(")", n), strings.Repeat("( ", n)+"a == 1 or b == 2"+strings.Repeat(" )", n))
+	}
+	ins = append(ins, strings.Repeat("a == 1 and ", 3000)+"a == 1", strings.Repeat("not ", 4000)+"a == 1", "((((a == 1)))) and ((((b == 2)))) or not ((((c == 3))))",
+		"a == \""+strings.Repeat("x", 300000)+"\"")
+	for _, in := range ins {
+		c := &parseCase{InputQ: strconv.QuoteToASCII(clip(in, 120))}
+		_, perr, steps := grammar.ParseWithStats("", []byte(in))
+		ev, eerr := bexpr.CreateEvaluator(in)
+		f, ferr := bexpr.CreateFilter(in)
+		if (perr == nil) != (eerr == nil) || (perr == nil) != (ferr == nil) || (ev == nil) == (eerr == nil) || (f == nil) == (ferr == nil) {
+			violation(t, "C10", "TestC10_Defaults", c, "unbudgeted entry points disagree on %s (%d parser steps): grammar.Parse error %v, CreateEvaluator error %v, CreateFilter error %v",
+				c.InputQ, steps, perr, eerr, ferr)
+		}
+		r.Case(in, true, map[string]interface{}{"input": clip(in, 80), "steps": steps, "accepted": perr == nil}, "source:defaults")
+	}
+}
